@@ -133,6 +133,7 @@ impl Val for u16 { fn draw<S: Src>(s: &mut S) -> Self { s.u16() } }
 impl Val for u32 { fn draw<S: Src>(s: &mut S) -> Self { s.u32() } }
 impl Val for u64 { fn draw<S: Src>(s: &mut S) -> Self { s.u64() } }
 impl Val for f32 { fn draw<S: Src>(s: &mut S) -> Self { s.f32() } }
+impl Val for &'static u8 { fn draw<S: Src>(s: &mut S) -> Self { Box::leak(Box::new(s.u8())) } }
 impl Val for () { fn draw<S: Src>(_s: &mut S) -> Self { } }
 impl Val for crate::m::K { fn draw<S: Src>(s: &mut S) -> Self { crate::m::K(s.u64()) } }
 impl<const ID: usize> Val for crate::m::Ctr<ID> { fn draw<S: Src>(s: &mut S) -> Self { crate::m::Ctr(s.u8()) } }
